@@ -182,7 +182,7 @@ def tlc_cases(ctx):
     Returns the list of distinct emitted cases."""
     from concurrent.futures import ThreadPoolExecutor
 
-    sim_n = 60 if ctx.quick else 1500          # behaviours per TLC worker
+    sim_n = 60 if ctx.quick else 800          # behaviours per TLC worker
     W = max(2, core.NCPU // 2)
     jobs = [
         ("exhaustive", "Optimizer_quick.cfg" if ctx.quick else "Optimizer_thorough.cfg", dict(workers=W, timeout=3000)),
@@ -875,13 +875,13 @@ def select_cases(ctx, cases, n_quick):
 
 
 def variants_for(ctx, idx):
-    """the default optimize() always (its structure is predicted by the spec); quick: three more entry points / option tuples in
-    rotation; thorough: all"""
+    """the default optimize() always (its structure is predicted by the spec); plus three (quick) / six (thorough) more entry
+    points / option tuples in rotation"""
     others = VARIANTS[1:]
-    if not ctx.quick:
-        return list(VARIANTS)
     k = (idx + ctx.seed) % len(others)
-    return ["optimize"] + [others[(k + j * 4) % len(others)] for j in range(3)]
+    n = 3 if ctx.quick else 6
+    step = 4 if ctx.quick else 2
+    return ["optimize"] + sorted({others[(k + j * step) % len(others)] for j in range(n)})
 
 
 def direction_a(ctx, want_abs):
